@@ -27,12 +27,14 @@ import tempfile
 
 import numpy as np
 
-from mc import ScopeUnit, FAILED
+from mc import ScopeUnit, HistoryUnit, FAILED
 from mc.linalg import dense
 from mc.state import reset_executors
 
 import prysm.x.polarization as pol
 from prysm import propagation as prop
+from prysm import fttools
+from prysm.conf import config
 
 ID = 'C20'
 ASSUMPTIONS = [
@@ -44,7 +46,63 @@ ASSUMPTIONS = [
     'the installation-count history runs in a sub-process per case and is compared with the never-patched routines of the harness process',
 ]
 
-TOLU = 32 * np.finfo(float).eps    # tolerance unit: every oracle below is k * TOLU * scale; the pinned tree is silent at TOLU = 1 eps (all seeds, thorough), i.e. margin >= 32x
+TOLU = 32 * np.finfo(float).eps    # tolerance unit: every oracle below is k * TOLU * scale; HEAD is silent at TOLU = 1 eps (all seeds, thorough): margin >= 32x
+PREC = 64                          # the precision the current case runs under; TOLU follows it (32 * eps of that precision)
+
+
+def set_prec(p):
+    """Configure prysm's precision for the current case and tie the tolerance unit to it."""
+    global PREC, TOLU
+    PREC = int(p)
+    TOLU = 32 * float(np.finfo(np.float32 if PREC == 32 else np.float64).eps)
+    config.precision = PREC
+
+
+_CACHES = None
+
+
+def clear_library_caches():
+    """A fresh process state as far as it can be reached from outside: every functools cache hanging off the modules
+    this property touches is emptied, and the shared transform executors are cleared (precision is left alone)."""
+    global _CACHES
+    if _CACHES is None:
+        import prysm.mathops, prysm.conf, prysm.coordinates   # noqa
+        found = []
+        for m in (pol, prop, fttools, prysm.mathops, prysm.conf, prysm.coordinates):
+            for v in list(vars(m).values()):
+                if callable(getattr(v, 'cache_clear', None)) and v not in found:
+                    found.append(v)
+        _CACHES = found
+    for f in _CACHES:
+        f.cache_clear()
+    fttools.mdft.clear()
+    fttools.czt.clear()
+
+
+def fresh_state():
+    clear_library_caches()
+    set_prec(64)
+
+
+def at_precision(run):
+    """Run a scope case under case['prec'] (32 or 64) from a fresh library state; 32-bit violations get the suffix ':p32'."""
+    def wrapped(case, seed, R):
+        fresh_state()
+        try:
+            set_prec(case.get('prec', 64))
+            n0 = len(R.violations)
+            try:
+                run(case, seed, R)
+            finally:
+                if PREC == 32:
+                    for v in R.violations[n0:]:
+                        v['sig'] += ':p32'
+                    R.outcome('p32')
+        finally:
+            fresh_state()
+    wrapped.__name__ = getattr(run, '__name__', 'run')
+    return wrapped
+
 PI = math.pi
 I2 = np.eye(2)
 
@@ -657,13 +715,13 @@ def run_adapter(case, seed, R):
         got_dense = None
         for fname, J in jones_fields(shape, seed):
             a, k = _mk(args, kw, shape, seed)
-            reset_executors(64)
+            reset_executors(PREC)
             got = R.call(wrapped, J.copy(), *a, sig=sig + ':exception', **k)
             comps = {}
             ok = True
             for i in range(2):
                 for j in range(2):
-                    reset_executors(64)
+                    reset_executors(PREC)
                     a, k = _mk(args, kw, shape, seed)
                     c = plain_eval(plain, np.ascontiguousarray(J[..., i, j]), a, k, R)
                     if c is None:
@@ -691,12 +749,12 @@ def run_adapter(case, seed, R):
         # scalar (2-D) fields pass straight through
         E = dense(shape, seed, salt=301)
         a, k = _mk(args, kw, shape, seed)
-        reset_executors(64)
+        reset_executors(PREC)
         w = plain_eval(plain, E.copy(), a, k, R)
         if w is None:
             R.outcome('plain-routine-raises')
             continue
-        reset_executors(64)
+        reset_executors(PREC)
         a, k = _mk(args, kw, shape, seed)
         g = R.call(wrapped, E.copy(), *a, sig=sig + ':exception', **k)
         R.expect_close(g, w, 8 * TOLU * max(1.0, float(np.abs(w).max())), sig + ':passthrough', f'adapter({name}) on a 2-D field, call {ci}')
@@ -716,10 +774,11 @@ def run_adapter(case, seed, R):
 _SUB = r'''
 import sys, json, traceback
 import numpy as np
-k, funcs, seed, outdir = int(sys.argv[1]), json.loads(sys.argv[2]), int(sys.argv[3]), sys.argv[4]
+k, funcs, seed, outdir, prec = int(sys.argv[1]), json.loads(sys.argv[2]), int(sys.argv[3]), sys.argv[4], int(sys.argv[5])
 import prysm.propagation as P
 import prysm.x.polarization as pol
 from props import c20
+c20.set_prec(prec)
 before = {n: getattr(P, n) for n in dir(P) if callable(getattr(P, n)) and not n.startswith('_')}
 for _ in range(k):
     if funcs is None:
@@ -737,7 +796,7 @@ for shape in c20.HIST_SHAPES:
                 key = f'{name}|{shape[0]}x{shape[1]}|{ci}|{kind}'
                 x = c20.dense(shape, seed, salt=301) if kind == '2d' else c20.jones_input(shape, seed, kind)
                 a, kk = c20._mk(args, kw, shape, seed)
-                c20.reset_executors(64)
+                c20.reset_executors(c20.PREC)
                 try:
                     res[key] = np.asarray(getattr(P, name)(x, *a, **kk))
                     meta['calls'] += 1
@@ -747,7 +806,7 @@ for shape in c20.HIST_SHAPES:
     E = c20.dense(shape, seed, salt=301)
     for mname, margs in (('focus', (100.0, 2)), ('unfocus', (100.0, 2)), ('free_space', (3.0, 2)), ('focus_fixed_sampling', (100.0, 2.0, 5))):
         key = f'Wavefront.{mname}|{shape[0]}x{shape[1]}'
-        c20.reset_executors(64)
+        c20.reset_executors(c20.PREC)
         try:
             w = P.Wavefront(E.copy(), 0.6, 0.5, space='psf' if mname == 'unfocus' else 'pupil')
             res[key] = np.asarray(getattr(w, mname)(*margs).data)
@@ -771,7 +830,7 @@ def run_history(case, seed, R):
         env = dict(os.environ)
         here = [os.path.dirname(os.path.dirname(os.path.dirname(os.path.abspath(pol.__file__)))), os.path.dirname(os.path.dirname(os.path.abspath(__file__)))]
         env['PYTHONPATH'] = os.pathsep.join(here + ([env['PYTHONPATH']] if env.get('PYTHONPATH') else []))
-        p = subprocess.run([sys.executable, '-W', 'ignore', '-c', _SUB, str(k), json.dumps(funcs), str(int(seed)), d],
+        p = subprocess.run([sys.executable, '-W', 'ignore', '-c', _SUB, str(k), json.dumps(funcs), str(int(seed)), d, str(PREC)],
                            env=env, capture_output=True, text=True, timeout=600)
         R.tick()
         if p.returncode != 0 or not os.path.exists(os.path.join(d, 'meta.json')):
@@ -797,7 +856,7 @@ def run_history(case, seed, R):
                 key4 = f'{name}|{shape[0]}x{shape[1]}|{ci}|4d'
                 sig = f'{sig0}:{name}'
                 a, kk = _mk(args, kw, shape, seed)
-                reset_executors(64)
+                reset_executors(PREC)
                 w2 = plain_eval(plain, dense(shape, seed, salt=301), a, kk)
                 if w2 is None:
                     R.outcome('plain-routine-raises')
@@ -815,7 +874,7 @@ def run_history(case, seed, R):
                         for i in range(2):
                             for j in range(2):
                                 a, kk = _mk(args, kw, shape, seed)
-                                reset_executors(64)
+                                reset_executors(PREC)
                                 c = plain_eval(plain, np.ascontiguousarray(J[..., i, j]), a, kk)
                                 want[..., i, j] = np.nan if c is None else c
                         if not np.all(np.isfinite(want)):
@@ -830,7 +889,7 @@ def run_history(case, seed, R):
         E = dense(shape, seed, salt=301)
         for mname, margs in (('focus', (100.0, 2)), ('unfocus', (100.0, 2)), ('free_space', (3.0, 2)), ('focus_fixed_sampling', (100.0, 2.0, 5))):
             key = f'Wavefront.{mname}|{shape[0]}x{shape[1]}'
-            reset_executors(64)
+            reset_executors(PREC)
             w = prop.Wavefront(E.copy(), 0.6, 0.5, space='psf' if mname == 'unfocus' else 'pupil')
             want = np.asarray(getattr(w, mname)(*margs).data)
             if key in meta['errors']:
@@ -840,6 +899,112 @@ def run_history(case, seed, R):
                                f'Wavefront.{mname} {shape} after {k} installs')
     R.outcome(f'installs={k}')
     R.nontrivial(k > 0)
+
+
+# ---------------------------------------------------------------------------------------------
+# unit: precision / call history (module-level state shared between calls)
+
+H_EVENTS = ['p32', 'p64', 'j2m', 'j2m_batch', 'retarder', 'vortex', 'adapter', 'pauli']
+_H_U = ret_ref(0.3, 0.4) * np.exp(0.2j)                                   # a fixed unitary
+_H_UB = np.array([ret_ref(0.3, 0.4), ret_ref(2.0, -1.2) * 1j, Rref(0.4)])  # a fixed batch of unitaries
+_H_TH = np.array([0.4, -1.2, 2.5])
+
+
+def _h_call(ev, seed):
+    """(callable, args, kwargs) of a call event; arguments are fresh arrays every time."""
+    if ev == 'j2m':
+        return pol.jones_to_mueller, (_H_U.copy(),), {}
+    if ev == 'j2m_batch':
+        return pol.jones_to_mueller, (_H_UB.copy(),), {}
+    if ev == 'retarder':
+        return pol.linear_retarder, (0.3,), {'theta': 0.4}
+    if ev == 'vortex':
+        return pol.vector_vortex_retarder, (1.5, _H_TH.copy()), {'retardance': 2.0, 'rotate': 0.5}
+    if ev == 'adapter':
+        return pol.jones_adapter(prop.focus_fixed_sampling), (dense((4, 4, 2, 2), seed, salt=300), 0.5, 50.0, 0.6, 2.0, 5), {}
+    if ev == 'pauli':
+        return pol.pauli_spin_matrix, (3,), {}
+    raise KeyError(ev)
+
+
+def h_fresh(init, seed):
+    fresh_state()
+    set_prec(init['prec'])
+    return {'last': None, 'trace': [], 'seed': seed}
+
+
+def h_events(init, hist, st):
+    return H_EVENTS
+
+
+def h_apply(st, ev, R):
+    st['last'] = None
+    if ev == 'p32':
+        set_prec(32)
+    elif ev == 'p64':
+        set_prec(64)
+    else:
+        f, a, k = _h_call(ev, st['seed'])
+        out = R.call(f, *a, sig=f'history:{ev}:exception', **k)
+        st['last'] = (ev, out)
+        st['trace'].append((ev, PREC))
+    return st
+
+
+def h_check(st, init, hist, R):
+    cfg = 32 if config.precision is np.float32 else 64
+    R.expect(cfg == PREC, 'history:precision-changed-by-call', f'config.precision is {cfg} after {hist}, the history set {PREC}')
+    if st['last'] is None:
+        R.outcome('config')
+        return
+    ev, out = st['last']
+    if out is FAILED:
+        return
+    prec = PREC
+    eps = float(np.finfo(np.float32 if prec == 32 else np.float64).eps)
+    # (a) the same call in a fresh library state under the current precision: same dtype, same value to eps(precision)
+    clear_library_caches()
+    set_prec(prec)
+    f, a, k = _h_call(ev, st['seed'])
+    want = np.asarray(f(*a, **k))
+    R.tick()
+    sig = f'history:{ev}:p{prec}:depends-on-prior-calls'
+    got = valid(R, out, want.shape, sig, f'{ev} after {hist[:-1]}', kind='fc')
+    if got is None:
+        return
+    R.expect(got.dtype == want.dtype, sig + ':dtype', f'{ev} after {hist[:-1]}: dtype {got.dtype}, a fresh state gives {want.dtype}')
+    R.expect_close(got, want, 4 * eps * max(1.0, float(np.abs(want).max())), sig, f'{ev} after {hist[:-1]} differs from the same call in a fresh state (precision {prec})')
+    # (b) the independent reference, at the accuracy of the CURRENT precision
+    vs = f'history:{ev}:p{prec}:value'
+    if ev in ('j2m', 'j2m_batch'):
+        J = _H_U if ev == 'j2m' else _H_UB
+        R.expect_close(got @ np.swapaxes(got, -1, -2), np.broadcast_to(np.eye(4), got.shape), 64 * TOLU, vs, f'M M^T != I at the accuracy of precision {prec}, after {hist[:-1]}')
+        R.expect_close(got[..., 0, 0], np.ones(got.shape[:-2]), 32 * TOLU, vs, f'M00 != 1 at the accuracy of precision {prec}, after {hist[:-1]}')
+        check_mueller_value(R, J, got, vs, f'{ev} after {hist[:-1]}')
+    elif ev == 'retarder':
+        R.expect_close(got, ret_ref(0.3, 0.4), 16 * TOLU, vs, f'linear_retarder after {hist[:-1]}')
+        R.expect(got.dtype == np.dtype(config.precision_complex), vs + ':dtype', f'linear_retarder dtype {got.dtype} under precision {prec}')
+    elif ev == 'vortex':
+        R.expect_close(got, np.array([vvr_ref(1.5, t, 2.0, 0.5) for t in _H_TH]), 32 * TOLU, vs, f'vortex after {hist[:-1]}')
+        check_unitary(R, got, vs, f'vortex after {hist[:-1]}')
+    elif ev == 'pauli':
+        R.expect_equal(got, PAULI[3], vs, 'sigma_3')
+        R.expect(got.dtype == np.dtype(config.precision_complex), vs + ':dtype', f'pauli_spin_matrix dtype {got.dtype} under precision {prec}')
+    elif ev == 'adapter':
+        J = dense((4, 4, 2, 2), st['seed'], salt=300)
+        comp = np.empty(got.shape, dtype=complex)
+        for i in range(2):
+            for j in range(2):
+                reset_executors(prec)
+                comp[..., i, j] = prop.focus_fixed_sampling(np.ascontiguousarray(J[..., i, j]), 0.5, 50.0, 0.6, 2.0, 5)
+        R.expect_close(got, comp, comp_tol(comp), vs, f'adapter(focus_fixed_sampling) after {hist[:-1]} vs component-wise plain propagation')
+    R.nontrivial(len(hist) > 1)
+    R.outcome(f'{ev}:p{prec}')
+
+
+def h_canon(st):
+    # everything a later call could depend on: the precision now, and which calls ran under which precision, in order
+    return (PREC, tuple(st['trace']))
 
 
 # ---------------------------------------------------------------------------------------------
@@ -899,33 +1064,43 @@ def plan(tier, seed):
         hist.append({'installs': k, 'funcs': ['focus']})
         if not quick:
             hist.append({'installs': k, 'funcs': ['unfocus', 'angular_spectrum', 'focus_fixed_sampling']})
-    rs = lambda: reset_executors(64)   # noqa
+    both = lambda cases: [dict(c, prec=pr) for pr in (64, 32) for c in cases]   # noqa
+    P2 = ' || every case runs under config.precision 64 and 32, from a fresh library state (functools caches and transform executors cleared), all tolerances are k * 32 eps(configured precision)'
     at = f"retardance {A['ret']}, angles {A['ang']}, diattenuation {A['dia']}"
-    return [
-        ScopeUnit('elements', elements, run_element,
+    units = [
+        ScopeUnit('elements', both(elements), at_precision(run_element),
                   f'every (element kind, parameter, orientation) over {at}: rotation matrix (value, inverse, group law over all angle pairs), '
                   'linear_retarder / half_wave_plate / quarter_wave_plate (J^H J = I, reference R(-t) diag(1,e^id) R(t), det, E(t) = R_lib(-t) E(0) R_lib(t), Mueller orthogonal with M00 = 1), '
                   'linear_diattenuator / linear_polarizer (reference, rotation law, P^2 = P, Malus law against every input angle through Jones vectors in radians and degrees and through the Mueller matrix)'),
-        ScopeUnit('vortex', vortex, run_vortex,
+        ScopeUnit('vortex', both(vortex), at_precision(run_vortex),
                   f"vector_vortex_retarder over charge {A['charge']} x retardance x rotate {A['rot']} x theta grids of shape () and {A['shapes']} filled from the angle alphabet at every offset, on both azimuth conventions ((-pi,pi] as from arctan2, and [0,2pi): {A['ang2pi']}); charges include half-integers and negatives "
                   '(plus one seeded generic grid): unitary at every point, equal to Mawet eq. 7 reference, Mueller orthogonal with M00 = 1, batched == element-by-element (fresh 0-d theta arrays); default-argument form too'),
-        ScopeUnit('mueller_pairs', pairs, run_pair,
+        ScopeUnit('mueller_pairs', both(pairs), at_precision(run_pair),
                   f'ALL {npool * npool} ordered pairs (A, B) of a pool of {npool} complex 2x2 matrices (identity, seeded unitary, real rotator, singular polariser, seeded rank-one, nilpotent, seeded generic x2, exactly diagonal with unequal phases x2, exactly anti-diagonal complex, exactly real non-symmetric'
                   + ('' if quick else ', zero, real diagonal, generic, unitary') + '): M(AB) = M(A) M(B) through broadcast_kron and through np.kron; M(A) equals the Mueller matrix defined by S(JE) = M S(E); '
-                  'unitary => M M^T = I, M00 = 1; broadcast_kron == np.kron', reset=None),
-        ScopeUnit('mueller_batch', mbatch, run_mueller_batch,
+                  'unitary => M M^T = I, M00 = 1; broadcast_kron == np.kron'),
+        ScopeUnit('mueller_batch', both(mbatch), at_precision(run_mueller_batch),
                   f'batches of shapes {mshapes} cut from the pool at every offset and two strides, plus all-exactly-diagonal batches and all-diagonal-but-one batches: batched jones_to_mueller == one matrix at a time == reference; batched multiplicativity; broadcast_kron == np.kron per element'),
-        ScopeUnit('pauli', pauli, run_pauli,
+        ScopeUnit('pauli', both(pauli), at_precision(run_pauli),
                   'pauli_spin_matrix (all four, with and without shape=) equal the documented basis; pauli_coefficients of sigma_k = e_k; sum_k c_k sigma_k reconstructs every pool matrix and every batch; c_k = tr(sigma_k J)/2'),
-        ScopeUnit('batched_ctor', ctors, run_ctor,
+        ScopeUnit('batched_ctor', both(ctors), at_precision(run_ctor),
                   f"every constructor x every subset of its parameters passed as an array (with shape=) x shapes {A['shapes']} x every alphabet offset: batched == element-by-element scalar construction == reference; "
                   'also scalar parameters with shape= (constant field)'),
-        ScopeUnit('vectors', vectors, run_vectors,
+        ScopeUnit('vectors', both(vectors), at_precision(run_vectors),
                   'linear_pol_vector with array angles (radians and degrees) == element-by-element; circular_pol_vector both handednesses, value, S3 sign, and shape= form'),
-        ScopeUnit('adapter', adapters, run_adapter,
+        ScopeUnit('adapter', both(adapters), at_precision(run_adapter),
                   f'jones_adapter(f) for each of the five supported routines x shapes {ashapes} x three call forms (positional / keyword / shift / czt / explicit tf) x 20 Jones fields (seeded dense; each single component alone; each component alone scaled by {1e-3, 1e-9, 1e-12} with the others O(1); the whole field scaled likewise): '
-                  'equal to four plain propagations of the components with a RELATIVE tolerance per component; homogeneity adapter(s J) = s adapter(J); 2-D fields pass through unchanged; apply_polarization_optic', reset=rs),
-        ScopeUnit('install_history', hist, run_history,
+                  'equal to four plain propagations of the components with a RELATIVE tolerance per component; homogeneity adapter(s J) = s adapter(J); 2-D fields pass through unchanged; apply_polarization_optic'),
+        ScopeUnit('install_history', both(hist), at_precision(run_history),
                   'add_jones_propagation installed 0, 1, 2' + ('' if quick else ', 3') + ' times (default list and sub-lists) in a fresh sub-process per case: exactly the listed attributes are replaced, plain 2-D calls and Wavefront methods '
-                  'give the results of the never-patched routines, polarised (N,M,2,2) calls equal component-wise plain propagation (relative per component; dense field plus the same amplitude-scale alphabet {1e-3,1e-9,1e-12} per component and overall); shapes (4,4) and (4,6), three call forms per routine', reset=rs, chunk=1),
+                  'give the results of the never-patched routines, polarised (N,M,2,2) calls equal component-wise plain propagation (relative per component; dense field plus the same amplitude-scale alphabet {1e-3,1e-9,1e-12} per component and overall); shapes (4,4) and (4,6), three call forms per routine', chunk=1),
+        HistoryUnit('precision_history', [{'prec': 64}, {'prec': 32}], h_fresh, h_events, h_apply, h_check, h_canon, 3 if quick else 4,
+                    f'BFS to depth {3 if quick else 4} from both initial precisions over events {H_EVENTS} (precision switches; jones_to_mueller of a fixed unitary and of a batch; linear_retarder; '
+                    'vector_vortex_retarder; jones_adapter(focus_fixed_sampling) on a Jones field; pauli_spin_matrix): the last call equals, in dtype and to 4 eps(current precision), the same call made in a fresh '
+                    'library state (functools caches found on the modules cleared, executors cleared) under the current precision, and meets its reference at the accuracy of the current precision; '
+                    'canonical state = (precision, ordered list of (call, precision it ran under))', reset=fresh_state),
     ]
+    for u in units:
+        if u.kind == 'scope':
+            u.rule += P2
+    return units
